@@ -79,6 +79,11 @@ def place(x_ref: np.ndarray, m: np.ndarray, q, p) -> np.ndarray:
     return (x_ref - c) @ quat_to_matrix(q).T + c + np.asarray(p, dtype=float)
 
 
+def place_com(x_ref: np.ndarray, m: np.ndarray, q, p) -> np.ndarray:
+    """Reference rotated about its centre of mass, centre of mass put AT p (wherever the reference sits)."""
+    return (x_ref - com(x_ref, m)) @ quat_to_matrix(q).T + np.asarray(p, dtype=float)
+
+
 def random_unit_quaternion(rng: random.Random) -> list:
     while True:
         v = [rng.gauss(0, 1) for _ in range(4)]
@@ -141,6 +146,51 @@ def gen_asymmetric_molecule(rng: random.Random, planar: bool) -> list:
             continue
         return atoms
     raise HarnessError("could not generate an asymmetric molecule")
+
+
+def gen_symmetric_molecule(rng: random.Random, kind: str) -> list:
+    """Molecules with symmetry-equivalent atoms and atoms ON principal axes / planes - still three distinct principal
+    moments.  kind 'c2v_planar': mirror pairs (+-x, y, 0) plus atoms on the axis (0, y, 0) (water, formaldehyde ...);
+    kind 'c2': pairs (x, y, z), (-x, -y, z) plus atoms on the z axis (H2O2, S2Cl2 ...).  Atom order is shuffled: which
+    atom comes first or last must not matter."""
+    for _ in range(3000):
+        atoms = []
+        for _p in range(rng.randint(1, 3)):
+            el = rng.choice(ELEMENTS)
+            x, y = round(rng.uniform(0.4, 1.8), 3), round(rng.uniform(-1.8, 1.8), 3)
+            z = 0.0 if kind == "c2v_planar" else round(rng.uniform(-1.5, 1.5), 3)
+            if kind == "c2v_planar":
+                atoms += [(el, x, y, 0.0), (el, -x, y, 0.0)]
+            else:
+                atoms += [(el, x, y, z), (el, -x, -y, z)]
+        for _a in range(rng.randint(0, 2)):
+            el = rng.choice(ELEMENTS)
+            if kind == "c2v_planar":
+                atoms.append((el, 0.0, round(rng.uniform(-1.8, 1.8), 3), 0.0))
+            else:
+                atoms.append((el, 0.0, 0.0, round(rng.uniform(-1.8, 1.8), 3)))
+        if len(atoms) < 3:
+            continue
+        x = np.array([a[1:] for a in atoms], dtype=float)
+        m = np.array([MASS[a[0]] for a in atoms])
+        if len({tuple(r) for r in np.round(x, 1)}) < len(atoms):
+            continue
+        w, v, y = principal_moments(x, m)
+        if w[0] < 1e-3 or min((w[1] - w[0]) / w[1], (w[2] - w[1]) / w[2]) < 0.08:
+            continue
+        proj = np.abs(y @ v)
+        # every projection is either clearly non-zero or zero by symmetry; at least one atom fixes all (non-planar) or
+        # both in-plane (planar) directions
+        if np.any((proj > 1e-9) & (proj < 0.15)):
+            continue
+        n_zero = (proj < 1e-9).sum(axis=1)
+        if kind == "c2v_planar" and not np.any(n_zero == 1):
+            continue
+        if kind == "c2" and not np.any(n_zero == 0):
+            continue
+        rng.shuffle(atoms)
+        return atoms
+    raise HarnessError("could not generate a symmetric molecule")
 
 
 # ---------------------------------------------------------------------------------------------------------------------
@@ -731,7 +781,8 @@ class AssignmentCheck(Check):
         import molgri.space.fullgrid  # noqa: F401
 
     def generate(self, rng, tier):
-        b = rng.choice(["4", "5", "8", "9", "cube4D_12", "randomQ_7", "cube4D_17", "randomQ_10", "20", "1"])
+        b = rng.choice(["4", "5", "8", "9", "cube4D_12", "randomQ_7", "cube4D_17", "randomQ_10", "20", "1",
+                        "33", "40", "randomQ_50"])
         o = rng.choice(["1", "4", "7", "12", "ico_9", "cube3D_14", "randomS_11", "20", "26", "2"])
         t = rng.choice(["[0.2, 0.3, 0.4]", "[0.15, 0.3]", "linspace(0.2, 0.6, 4)", "[0.2, 0.25, 0.5]"])
         radii_nm = None
@@ -746,12 +797,23 @@ class AssignmentCheck(Check):
                     radii_nm[i] = round(radii_nm[i] + rng.choice([-0.3, -0.2, 0.2, 0.3]) * step, 4)
                 radii_nm = sorted(set(radii_nm))
             t = "[" + ", ".join(repr(x) for x in radii_nm) + "]"
-        if rng.random() < 0.3:
+        r = rng.random()
+        if r < 0.25:
             mol2 = {"source": "repo", "file": rng.choice(["H2O.gro", "H2O.xyz"])}
+        elif r < 0.45:
+            kind = rng.choice(["c2v_planar", "c2"])
+            mol2 = {"source": "gen", "fmt": rng.choice(["gro", "xyz", "pdb"]), "kind": kind,
+                    "atoms": gen_symmetric_molecule(rng, kind)}
         else:
             planar = rng.random() < 0.3
             mol2 = {"source": "gen", "fmt": rng.choice(["gro", "xyz", "pdb"]),
                     "kind": "planar" if planar else "generic", "atoms": gen_asymmetric_molecule(rng, planar)}
+        if mol2["source"] == "gen" and rng.random() < 0.25:
+            # the reference structure is handed over as it sits in its file, away from the origin
+            off = [round(rng.uniform(-15, 15), 3) for _ in range(3)]
+            mol2["atoms"] = [(a[0], round(a[1] + off[0], 3), round(a[2] + off[1], 3), round(a[3] + off[2], 3))
+                             for a in mol2["atoms"]]
+            mol2["center_com"] = False
         mol1 = rng.choice([{"source": "repo", "file": rng.choice(["H2O.gro", "NA.gro", "CL.gro", "glucose.xyz"])},
                            {"source": "gen", "fmt": "xyz", "kind": "generic", "atoms": gen_molecule(rng, "generic", 4)}])
         pool = {"workers": rng.choice([1, 1, 2, 3, 4]), "chunksize": rng.choice([None, None, 1, 3, 17, 50]),
@@ -763,8 +825,9 @@ class AssignmentCheck(Check):
                   "box": rng.choice([None, None, 8.0, 10.0, 30.0, 100.0]), "rng_init": rng.randrange(2 ** 32)}
         if rng.random() < 0.15:
             via_files = rng.random() < 0.5
-            if via_files and mol2.get("kind") == "planar":
-                via_files = False  # xtc keeps 0.01 A: a planar >3-atom molecule is not planar any more in the file
+            if via_files and mol2.get("kind") in ("planar", "c2v_planar", "c2"):
+                # xtc keeps 0.01 A: atoms that sit on a principal plane or axis do not any more in the file
+                via_files = False
             return {"kind": "backassign", **common, "via_files": via_files, "ops": []}
         radii = [10 * x for x in radii_nm] if radii_nm else \
             {"[0.2, 0.3, 0.4]": [2, 3, 4], "[0.15, 0.3]": [1.5, 3], "linspace(0.2, 0.6, 4)": [2, 10 / 3, 14 / 3, 6],
@@ -829,7 +892,11 @@ class AssignmentCheck(Check):
                 t_arr = np.array(fg.get_position_grid().get_radii(), dtype=float)
             with lib_call("OneMoleculeReader"):
                 u1 = OneMoleculeReader(molecule_path(sc["mol1"], d, "m1")).get_molecule()
-                u2 = OneMoleculeReader(molecule_path(sc["mol2"], d, "m2")).get_molecule()
+                if sc["mol2"].get("center_com") is False and sc["kind"] != "backassign":
+                    u2 = OneMoleculeReader(molecule_path(sc["mol2"], d, "m2"), center_com=False).get_molecule()
+                    probes["reference_not_centred"] = 1
+                else:
+                    u2 = OneMoleculeReader(molecule_path(sc["mol2"], d, "m2")).get_molecule()
             ref1 = np.array(u1.atoms.positions, dtype=float)
             ref2 = np.array(u2.atoms.positions, dtype=float)
             m2 = np.array(u2.atoms.masses, dtype=float)
@@ -858,7 +925,7 @@ class AssignmentCheck(Check):
                     return {"events": 0, "fingerprint": "empty", "faults": {}, "probes": {}, "sig": None,
                             "nontrivial": False}
                 shift = np.array(sc["shift"], dtype=float)
-                coords = np.array([np.vstack([ref1, place(ref2, m2, f[3:], f[:3])]) + shift for f in frames],
+                coords = np.array([np.vstack([ref1, place_com(ref2, m2, f[3:], f[:3])]) + shift for f in frames],
                                   dtype=np.float32)
                 merged = Merge(u1.atoms, u2.atoms)
                 if sc.get("box"):
